@@ -33,6 +33,10 @@ Theorem C07_width_bound : forall line o, utf8_valid line = true -> short_line li
 Proof. exact wrap_lines_width. Qed.
 Print Assumptions C07_width_bound.
 
+(* NOTE on C07_tool_join_spec below: [rejoined] is defined through wrap_lines, so the statement mostly
+   says that the per-line tool model iterates wrap_lines and join; its content comes from
+   C07_wrap_lines_lossless (what the pieces are) and C07_stream_attribution(_stateful) (that the real
+   data flow attributes the answers to the right line). *)
 (* The tool with any child that answers every piece p with one line g p: each output
    line is the child's answers for that line's pieces re-joined with the withheld runs
    ([rejoined]); input and output have the same number of lines. *)
@@ -52,6 +56,25 @@ Theorem C07_stream_attribution : forall o g ls, lp g ->
   = TOk (unrecords 10 (map (rejoined o g) ls)).
 Proof. exact stream_attribution_proof. Qed.
 Print Assumptions C07_stream_attribution.
+
+(* The same for children WITH MEMORY: any answer function A on the list of all lines read that gives one
+   LF-free line per line ([one_per_line]; answer i may depend on everything read).  Output line k consists
+   of the answer lines at the positions of line k's pieces, re-joined with line k's withheld runs
+   ([rejoined_stream]: the answer list cut into consecutive segments of the lines' piece counts). *)
+Theorem C07_stream_attribution_stateful : forall o A ls, one_per_line A ->
+  Forall (fun l => utf8_valid l = true /\ short_line l) ls -> forallb (no_delim 10) ls = true ->
+  foldfilter_stream o (answers_child A) fold_feeder_strip_cr fold_collector_strip_cr (unrecords 10 ls)
+  = TOk (unrecords 10 (rejoined_stream o A ls)).
+Proof. exact stream_attribution_stateful_proof. Qed.
+Print Assumptions C07_stream_attribution_stateful.
+
+(* a numbering child: the answers carry their global position, visible in the right lines *)
+Example C07_nonvacuous_stateful :
+  let o := {| w_width := 2; w_keep := false; w_delims := [32] |} in
+  let A := fun ls => map (fun il => (48 + Z.of_nat (fst il)) :: snd il) (combine (seq 1 (length ls)) ls) in
+  foldfilter_stream o (answers_child A) false false [97; 98; 32; 99; 10; 100; 101; 102; 10]
+  = TOk [49; 97; 98; 32; 50; 99; 10; 51; 100; 101; 52; 102; 10].
+Proof. vm_compute. reflexivity. Qed.
 
 (* an identity child reproduces the input exactly (delimiters are never NUL: they come from argv) *)
 Theorem C07_tool_identity : forall o ls,
